@@ -36,6 +36,7 @@ func main() {
 	seed := flag.Int("seed", 0, "seed")
 	keep := flag.Bool("keep", false, "keep SMT files")
 	explainF := flag.String("explain", "", "explain refuted obligations whose name contains this substring")
+	dump := flag.String("dump", "", "dump SSA of functions whose key contains this substring and exit")
 	flag.Parse()
 	t0 := time.Now()
 
@@ -101,6 +102,14 @@ func main() {
 		os.Exit(2)
 	}
 	tLoad := time.Since(t0)
+	if *dump != "" {
+		for k, fn := range eng.funcs {
+			if strings.Contains(k, *dump) {
+				fn.WriteTo(os.Stdout)
+			}
+		}
+		os.Exit(0)
+	}
 
 	var reports []*funcReport
 	var all []*Obligation
